@@ -122,6 +122,9 @@ class HassebDALIUSBDriver(DALIDriver):
         if self.sn > 255:
             self.sn = 1
         frame_length = 16
+        if len(command.frame) != frame_length:
+            raise ValueError('Unsupported frame length: {}'.format(
+                len(command.frame)))
         if command.is_query:
             expect_reply = 1
         else:
